@@ -52,6 +52,7 @@ type Contract struct {
 	Binders     []Binder // for lemmas
 	Uses        []string // prelude symbols to force-include
 	Fresh       []string // result names asserted fresh
+	Candidates  []string // for field contracts: the functions the value may be (dispatch)
 	Used        bool
 }
 
@@ -139,6 +140,9 @@ func ParseContractFile(path, pkgPath string) ([]*Contract, error) {
 				out = append(out, c)
 				cur = c
 				continue
+			}
+			if word == "field" && !strings.Contains(rest, "(") {
+				rest += "()"
 			}
 			m := headerRe.FindStringSubmatch("func " + rest)
 			if m == nil {
@@ -239,6 +243,10 @@ func ParseContractFile(path, pkgPath string) ([]*Contract, error) {
 		case "uses":
 			for _, a := range strings.Split(rest, ",") {
 				cur.Uses = append(cur.Uses, strings.TrimSpace(a))
+			}
+		case "candidates":
+			for _, a := range strings.Split(rest, ",") {
+				cur.Candidates = append(cur.Candidates, strings.TrimSpace(a))
 			}
 		case "fresh":
 			for _, a := range strings.Split(rest, ",") {
